@@ -22,7 +22,10 @@ Record TreeInv (s : vol) (depth : N -> nat) : Prop := {
   ti_subdirs : forall k e, In e (lives_of s k) -> is_dir e = true ->
      e_clu e <> 0 /\ e_size e = 0 /\ in_store s (e_clu e) /\
      d_dot (get_dir s (e_clu e)) = e_clu e /\ d_dotdot (get_dir s (e_clu e)) = k;
-  ti_refs : NoDup (dir_refs s) /\ forall k, in_store s k -> k <> 0 -> In k (dir_refs s);
+  ti_refs : NoDup (dir_refs s);
+  (* '..' leads one level up (for every directory in the store, referenced or not) *)
+  ti_up : forall x, in_store s x -> x <> 0 ->
+     in_store s (d_dotdot (get_dir s x)) /\ depth x = S (depth (d_dotdot (get_dir s x)));
   ti_depth0 : depth 0 = 0%nat;
   ti_depth : forall k e, In e (lives_of s k) -> is_dir e = true -> depth (e_clu e) = S (depth k) }.
 
@@ -36,20 +39,11 @@ Proof.
   intros H. destruct kd as [k d]. cbn [fst snd]. unfold lives_of, items_of.
   rewrite (get_dir_find s k d); [reflexivity|]. apply In_find_dir; [apply T|exact H].
 Qed.
-(* every sub-directory is named by an entry *)
-Lemma ref_parent x : in_store s x -> x <> 0 ->
-  exists k e, In e (lives_of s k) /\ is_dir e = true /\ e_clu e = x.
-Proof.
-  intros Hx Hn. pose proof (proj2 (ti_refs _ _ T) x Hx Hn) as H. unfold dir_refs in H.
-  apply in_flat_map in H. destruct H as (kd & Hkd & H). unfold dir_refs_of, sub_refs in H.
-  apply in_map_iff in H. destruct H as (e & E & He). apply filter_In in He. destruct He as [He Hd].
-  exists (fst kd), e. rewrite (lives_of_entry kd Hkd). auto.
-Qed.
 Lemma sub_refs_nodup k : NoDup (sub_refs (lives_of s k)).
 Proof.
   destruct (in_dec N.eq_dec k (List.map fst (v_dirs s))) as [I|I].
   - apply in_map_iff in I. destruct I as (kd & <- & Hkd). rewrite (lives_of_entry kd Hkd).
-    apply (NoDup_flat_map_in dir_refs_of (v_dirs s) kd (proj1 (ti_refs _ _ T)) Hkd).
+    apply (NoDup_flat_map_in dir_refs_of (v_dirs s) kd (ti_refs _ _ T) Hkd).
   - rewrite (lives_of_absent s k I). constructor.
 Qed.
 
@@ -59,19 +53,12 @@ Fixpoint anc (n : nat) (x : N) : N := match n with O => x | S m => up (anc m x) 
 (* c is an ancestor-or-self of x, reached before the walk up passes the root *)
 Definition Desc (c x : N) : Prop := exists n, (n <= depth x)%nat /\ anc n x = c.
 
-Lemma up_facts x : in_store s x -> x <> 0 ->
-  in_store s (up x) /\ depth x = S (depth (up x)) /\
-  exists e, In e (lives_of s (up x)) /\ is_dir e = true /\ e_clu e = x.
-Proof.
-  intros Hx Hn. destruct (ref_parent x Hx Hn) as (k & e & He & Hd & <-).
-  destruct (ti_subdirs _ _ T k e He Hd) as (_ & _ & _ & _ & U). unfold up. rewrite U.
-  split; [apply (lives_in_store s k e He)|]. split; [apply (ti_depth _ _ T k e He Hd)|].
-  exists e. auto.
-Qed.
+Lemma up_facts x : in_store s x -> x <> 0 -> in_store s (up x) /\ depth x = S (depth (up x)).
+Proof. apply (ti_up _ _ T). Qed.
 Lemma depth0_root x : in_store s x -> depth x = 0%nat -> x = 0.
 Proof.
   intros Hx H. destruct (N.eq_dec x 0) as [E|E]; [exact E|].
-  destruct (up_facts x Hx E) as (_ & D & _). lia.
+  destruct (up_facts x Hx E) as (_ & D). lia.
 Qed.
 Lemma anc_depth x : in_store s x -> forall n, (n <= depth x)%nat ->
   in_store s (anc n x) /\ depth (anc n x) = (depth x - n)%nat.
@@ -80,7 +67,7 @@ Proof.
   - split; [exact Hx|lia].
   - destruct (IH ltac:(lia)) as [I D].
     assert (Hy : anc n x <> 0) by (intros E; rewrite E, (ti_depth0 _ _ T) in D; lia).
-    destruct (up_facts _ I Hy) as (I' & D' & _). split; [exact I'|lia].
+    destruct (up_facts _ I Hy) as (I' & D'). split; [exact I'|lia].
 Qed.
 Lemma anc_add n m x : anc (n + m) x = anc n (anc m x).
 Proof. induction n as [|n IH]; cbn [anc Nat.add]; [reflexivity|rewrite IH; reflexivity]. Qed.
@@ -115,7 +102,7 @@ Proof.
   - exists [x]. split; [reflexivity|]. split; [constructor; [intros []|constructor]|].
     intros y [<-|[]]. split; [exact Hx|lia].
   - assert (Hn : x <> 0) by (intros E; rewrite E, (ti_depth0 _ _ T) in D; lia).
-    destruct (up_facts x Hx Hn) as (I & D' & _). destruct (IH (up x) I ltac:(lia)) as (l & L & N & A).
+    destruct (up_facts x Hx Hn) as (I & D'). destruct (IH (up x) I ltac:(lia)) as (l & L & N & A).
     exists (x :: l). split; [cbn; lia|]. split.
     + constructor; [|exact N]. intros H. destruct (A x H). lia.
     + intros y [<-|Hy]; [split; [exact Hx|lia]|]. destruct (A y Hy). split; [assumption|lia].
@@ -188,5 +175,13 @@ End Tree.
 Lemma VolInv_tree upper V s : VolInv upper V s -> exists depth, TreeInv s depth.
 Proof.
   intros I. destruct (vi_depth _ _ _ I) as (depth & D0 & D). exists depth.
-  constructor; try assumption; apply I.
+  constructor; try assumption; try apply I.
+  intros x Hx Hn. pose proof (proj2 (vi_refs _ _ _ I) x Hx Hn) as H. unfold dir_refs in H.
+  apply in_flat_map in H. destruct H as (kd & Hkd & H). unfold dir_refs_of, sub_refs in H.
+  apply in_map_iff in H. destruct H as (e & E & He). apply filter_In in He. destruct He as [He Hd].
+  assert (He' : In e (lives_of s (fst kd))).
+  { destruct kd as [k d]. cbn [fst snd] in *. unfold lives_of, items_of.
+    rewrite (get_dir_find s k d); [exact He|]. apply In_find_dir; [apply I|exact Hkd]. }
+  destruct (vi_subdirs _ _ _ I (fst kd) e He' Hd) as (_ & _ & _ & _ & U). rewrite E in U. rewrite U.
+  split; [apply (lives_in_store s _ e He')|]. rewrite <- E. apply D; assumption.
 Qed.
